@@ -14,6 +14,12 @@ func (l *Local) Readdir(offset uint64, count uint32) (p9.Dirents, error) {
 		cursor = uint64(0)
 	)
 
+	// Entries are numbered from the start of the directory, so read it from
+	// the start: l.file's position is wherever the previous call stopped.
+	if _, err := l.file.Seek(0, io.SeekStart); err != nil {
+		return nil, err
+	}
+
 	for len(p9Ents) < int(count) {
 		singleEnt, err := l.file.Readdirnames(1)
 
@@ -26,8 +32,9 @@ func (l *Local) Readdir(offset uint64, count uint32) (p9.Dirents, error) {
 		// we consumed an entry
 		cursor++
 
-		// cursor \in (offset, offset+count)
-		if cursor < offset || cursor > offset+uint64(count) {
+		// cursor \in (offset, offset+count]: offset is the cookie of the
+		// last entry the caller already has.
+		if cursor <= offset || cursor > offset+uint64(count) {
 			continue
 		}
 
